@@ -876,6 +876,7 @@ def run_case(case, obs):
 
 # ---------------------------------------------------------------------------
 MUTANTS = [
+    ('exponent-boundary-reformat-removed', 'regions/io/ds9/write.py', "            if reread != value:\n                value = reread\n", ""),
     ('polygon-vertices-no-plus-one', 'regions/io/ds9/write.py',
      "value_str += (f'{val.x + 1:0.{precision}f},'", "value_str += (f'{val.x:0.{precision}f},'"),
     ('ellipse-annulus-axes-not-halved', 'regions/io/ds9/write.py',
